@@ -20,7 +20,7 @@ META = {
     "bounds": {"quick": {"chains": 2, "workers": 2, "stages": "1-2", "iterations_per_stage": "1-2"},
                "thorough": {"chains": 3, "workers": "2-3", "stages": "1-3"}},
     "outside": "NOT APPLICABLE parts: real OS scheduling / per-chain delays, statistical independence of PCG64.jumped streams, "
-               "generator types other than the token stream (the real Generator was used in the design-phase confirmation only)",
+               "generator types: PCG64 / MT19937 / Philox / SFC64 / legacy RandomState in fresh, jumped and state-restored form on one small problem (concrete runs)",
     "stubs": ["multiprocessing model", "token random stream with jumped(i) per-chain sub-streams"],
     "assumptions": ["multiprocessing model as in C13"],
 }
@@ -98,12 +98,60 @@ def case_real_schedules(rec, n_warm, n_main, inits, stager):
                    [], z3.BoolVal(False), syntactic=True)
 
 
+GENERATOR_KINDS = ["pcg64", "pcg64_jumped", "mt19937_jumped", "philox_jumped", "sfc64", "pcg64_state_restored", "legacy_randomstate"]
+
+
+def case_generator_kinds(rec, kind):
+    """'For a fixed seed and inputs the output is a deterministic function of those inputs ... all supported generator types':
+    two runs from identically constructed generators of this kind (incl. generators whose state does not come from their own seed
+    sequence - a jumped copy, a restored state) agree bit for bit, every modelled two-worker schedule reproduces them, chains with
+    the same start use different streams, and a generator with a different seed gives different output (the streams depend on
+    the seed at all)."""
+    rec.encoded(SA._get_per_chain_rngs, SA.MarkovChainMonteCarloMethod.sample_chains, SA._sample_chains_parallel)
+    inits = [0.7, 0.7]
+    viol = {}
+    try:
+        a = SL.run_real(3, 3, inits, n_process=1, rng_kind=kind)
+        b = SL.run_real(3, 3, inits, n_process=1, rng_kind=kind)
+    except ValueError as e:
+        if "Unsupported random number generator" in str(e):
+            rec.note(f"{kind}: not a supported generator type ({e})")
+            rec.obligation(f"generator kind {kind}: rejected as unsupported", [], z3.BoolVal(False), syntactic=True)
+            return
+        raise
+    rec.path()
+    if a != b:
+        viol["rerun-differs"] = (f"generator kind {kind}: two sequential runs from identically constructed generators differ: chain 0 "
+                                 f"{a['pos'][0][:3]} vs {b['pos'][0][:3]}", None)
+    n = 0
+    for assign in itertools.product(range(2), repeat=2):
+        for order in itertools.permutations(range(2)):
+            n += 1
+            rec.path()
+            r = SL.run_real(3, 3, inits, n_process=2, rng_kind=kind, assignment=(lambda c, a_=assign: a_[c]),
+                            order=(lambda ws, o=order: [ws[i] for i in o]))
+            if r != a:
+                viol.setdefault("real-parallel-differs-from-sequential",
+                                (f"generator kind {kind}: n_process=2, assignment {assign}, worker order {order} differs from the sequential run", (assign, order)))
+    if a["pos"][0] == a["pos"][1]:
+        viol["chains-share-stream"] = (f"generator kind {kind}: two chains with the same start produce identical output (same stream)", None)
+    c = SL.run_real(3, 3, inits, n_process=1, rng_kind=kind, seed=987654321)
+    if c == a:
+        viol["seed-ignored"] = (f"generator kind {kind}: output does not depend on the seed", None)
+    for k, (msg, sched) in viol.items():
+        rec.candidate(key=f"generator:{kind}:{k}", label=msg, payload={"generator_kind": kind, "sched": sched, "kind": k})
+    rec.sample({"generator_kind": kind, "schedules": n})
+    rec.obligation(f"generator kind {kind}: reruns, {n} schedules, distinct chains, seed dependence", [], z3.BoolVal(False), syntactic=True)
+
+
 def cases(tier):
     th = tier == "thorough"
     out = []
     for n_warm, n_main, inits, stager in ((6, 3, (300.0, 0.3), "default"), (4, 2, (0.3, 300.0), "windowed111")) + (((12, 4, (300.0, 0.3, -20.0), "default"),) if th else ()):
         out.append(Case(f"real/{stager}/{n_warm}+{n_main}/{len(inits)}chains", case_real_schedules,
                         {"n_warm": n_warm, "n_main": n_main, "inits": list(inits), "stager": stager}, timeout_s=900))
+    for kind in GENERATOR_KINDS:
+        out.append(Case(f"generator/{kind}", case_generator_kinds, {"kind": kind}, timeout_s=600))
     for n_warm, n_main in ((0, 2), (1, 1), (2, 2)) + (((3, 2), (1, 3)) if th else ()):
         for adapters in ("fast", "none"):
             out.append(Case(f"sched/2x2/{n_warm}+{n_main}/{adapters}", case_schedules,
@@ -118,6 +166,13 @@ def replay(cand):
     """Replay on the REAL multiprocessing pool with a REAL numpy Generator: parallel vs sequential outputs of a multi-stage run."""
     p = cand.get("payload") or {}
     kind = p.get("kind", "")
+    if p.get("generator_kind"):
+        gk = p["generator_kind"]
+        a = SL.run_real(3, 3, [0.7, 0.7], n_process=1, rng_kind=gk)
+        b = SL.run_real(3, 3, [0.7, 0.7], n_process=1, rng_kind=gk)
+        c = SL.run_real(3, 3, [0.7, 0.7], n_process=1, rng_kind=gk, seed=987654321)
+        bad = (a != b) if kind == "rerun-differs" else (a["pos"][0] == a["pos"][1]) if kind == "chains-share-stream" else (a == c) if kind == "seed-ignored" else True
+        return {"reproduced": bool(bad), "detail": cand["label"] + " (re-run with the real numpy generator)"}
     if kind in ("parallel-differs-from-sequential", "stream-replayed"):
         import numpy as np
         import importlib
